@@ -385,4 +385,128 @@ theorem rt_window (fn : Expr) (part : List Expr) (ord : List OrderItem) (rows : 
     (NoComma.cons c1 (NoComma.cons rfl (NoComma.cons o14 (grp_nocomma _))))
     (by simp only [tl4, List.length_cons, List.length_nil]; omega)
 
+/-! ### array index `a[i]` -/
+theorem toList_src_arr (cs : List Tok) : (arr cs).src.toList = '(' :: (sourceL cs ++ [')']) := by
+  simp [arr, Tok.src, Tok.source, String.toList_ofList]
+theorem arr_facts (cs : List Tok) : (arr cs).has PAREN = false ∧ (arr cs).has ARRAY = true ∧ (arr cs).children = cs ∧
+    (arr cs).equalsStr "," = false ∧ (arr cs).size = 1 + sizeL cs ∧ (arr cs).srcEq "." = false ∧ (arr cs).srcEqUp "OVER" = false := by
+  have h1 : (arr cs).src.toList.head? = some '(' := by simp [toList_src_arr]
+  have h2 : (up (arr cs).src).toList.head? = some '(' := by
+    simp [up, Gen.pyUpperS, String.toList_ofList, toList_src_arr, pyUpper_paren]
+  refine ⟨by simp [arr, Tok.has, Tok.marks]; decide, by simp [arr, Tok.has, Tok.marks]; decide, rfl, rfl, by simp [arr, Tok.size], ?_, ?_⟩
+  · simp only [Tok.srcEq, beq_eq_false_iff_ne, ne_eq]; exact ne_of_head h1 (by decide)
+  · simp only [Tok.srcEqUp, beq_eq_false_iff_ne, ne_eq]; exact ne_of_head h2 (by decide)
+/-- `pIndex` on an array index group holding the rendering of `i` at the compute level -/
+theorem pIndex_arr (b i : Expr) (hi : RT4 d ch i) (rest : List Tok) :
+    OkAt (fun f => pIndex d f b (arr (W4 d ch i 8) :: rest)) (20 * sizeL (W4 d ch i 8) + 3) (.index b i, rest) := by
+  obtain ⟨_, a2, a3, _⟩ := arr_facts (W4 d ch i 8)
+  intro f hf
+  obtain ⟨g, rfl⟩ : ∃ g, f = g + 1 := ⟨f - 1, by omega⟩
+  have h1 := key8 i hi [] (stopLE2_nil d 8) g (by omega)
+  simp only [List.append_nil] at h1
+  unfold pIndex
+  simp only [a2, if_true, a3, h1]
+theorem full2_idx_col (c : String) (i : Expr) (hc : colOK d c = true) (hi : RT4 d ch i) :
+    Full2 d (P2 d) 2 0 [nameTok c, arr (W4 d ch i 8)] (.index (.column none c) i) := by
+  obtain ⟨a1, _, _, _, a5, a6, _⟩ := arr_facts (W4 d ch i 8)
+  intro rest hr f hf
+  simp only [sizeL, a5] at hf
+  obtain ⟨g, rfl⟩ : ∃ g, f = g + 3 := ⟨f - 3, by omega⟩
+  simp only [colOK, elemTok, Bool.and_eq_true, Bool.not_eq_true', beq_iff_eq] at hc
+  obtain ⟨⟨⟨⟨_, hu⟩, hcase⟩, hstar⟩, hname⟩ := hc
+  have hl : (nameTok c).has LITERAL = false := by simp [nameTok, Tok.has, Tok.marks]; decide
+  have hp : (nameTok c).has PAREN = false := by simp [nameTok, Tok.has, Tok.marks]; decide
+  have h1 := pIndex_arr (.column none c) i hi rest g (by omega)
+  simp only at h1
+  show pUnary d (g + 3) (nameTok c :: arr (W4 d ch i 8) :: rest) = _
+  unfold pUnary
+  simp only [hu, Bool.false_eq_true, if_false]
+  unfold pElement
+  simp only [hl, hp, hcase, hstar, Bool.false_eq_true, if_false]
+  unfold pNamed
+  simp only [a1, a6, Bool.false_eq_true, if_false, hname, h1]
+theorem full2_idx_qcol (t c : String) (i : Expr) (h : qcolOK d t c = true) (hi : RT4 d ch i) :
+    Full2 d (P2 d) 2 0 [nameTok t, dotTok, nameTok c, arr (W4 d ch i 8)] (.index (.column (some t) c) i) := by
+  obtain ⟨a1, _, _, _, a5, a6, _⟩ := arr_facts (W4 d ch i 8)
+  simp only [qcolOK, nm2OK, Bool.and_eq_true, Bool.not_eq_true', beq_iff_eq] at h
+  obtain ⟨h1, ⟨h2n, h2u⟩, _⟩ := h
+  obtain ⟨u, _, _, _, l, p, cs, st, un, _, _⟩ := nmOK_parts h1
+  obtain ⟨dp, ds, _⟩ := dot_facts
+  intro rest hr f hf
+  simp only [sizeL, Tok.size, nameTok, dotTok, opTok, a5] at hf
+  obtain ⟨g, rfl⟩ : ∃ g, f = g + 5 := ⟨f - 5, by omega⟩
+  have hx := pIndex_arr (.column (some t) c) i hi rest (g + 1) (by omega)
+  simp only at hx
+  show pUnary d (g + 5) (nameTok t :: dotTok :: nameTok c :: arr (W4 d ch i 8) :: rest) = _
+  unfold pUnary
+  simp only [u, Bool.false_eq_true, if_false]
+  unfold pElement
+  simp only [l, p, cs, st, Bool.false_eq_true, if_false]
+  unfold pNamed
+  simp only [dp, ds, Bool.false_eq_true, if_false, if_true]
+  unfold pQualified
+  simp only [h2n, if_true, searchMark, a1, Bool.false_eq_true, if_false, un, h2u, hx]
+theorem full2_idx_func (n : String) (ps : List Expr) (i : Expr) (hn : fnOK d none n = true) (hps : ∀ a ∈ ps, RT4 d ch a) (hi : RT4 d ch i) :
+    Full2 d (P2 d) 2 0 [qTok n, grp (toksArgs4 d ch 14 ps), arr (W4 d ch i 8)] (.index (.func none n ps) i) := by
+  obtain ⟨a1, _, _, _, a5, _, a7⟩ := arr_facts (W4 d ch i 8)
+  have hn' := hn
+  simp only [fnOK, Bool.and_eq_true] at hn
+  obtain ⟨hfn, hnm, hsp⟩ := hn
+  obtain ⟨u, _, _, hN, l, p, cs, st, un, _, _⟩ := nmOK_parts hnm
+  intro rest hr f hf
+  simp only [sizeL, qTok_size, size_grp, a5] at hf
+  obtain ⟨g, rfl⟩ : ∃ g, f = g + 4 := ⟨f - 4, by omega⟩
+  have h1 := plainFunc_ok n ps hn' hps (arr (W4 d ch i 8) :: rest) g (by omega)
+  have h2 := pIndex_arr (.func none n ps) i hi rest g (by omega)
+  simp only at h1 h2
+  show pUnary d (g + 4) (qTok n :: grp (toksArgs4 d ch 14 ps) :: arr (W4 d ch i 8) :: rest) = _
+  unfold pUnary
+  simp only [u, Bool.false_eq_true, if_false]
+  unfold pElement
+  simp only [l, p, cs, st, Bool.false_eq_true, if_false]
+  unfold pNamed
+  simp only [grp_paren, if_true, headIsOver, a7, Bool.false_eq_true, if_false]
+  unfold pFuncIdx
+  simp only [h1, h2]
+/-- what an array index may be applied to, with the records of its parts -/
+def IdxBase (d : Gen.D) (ch : Expr → Bool) : Expr → Prop
+  | .column none c => colOK d c = true
+  | .column (some t) c => qcolOK d t c = true
+  | .func none n ps => fnOK d none n = true ∧ ∀ a ∈ ps, RT4 d ch a
+  | _ => False
+theorem rt_index (a i : Expr) (ha : IdxBase d ch a) (hi : RT4 d ch i) : RT4 d ch (.index a i) := by
+  have k := @kw_nocomma
+  have ac := (arr_facts (W4 d ch i 8)).2.2.2.1
+  cases a with
+  | column t c =>
+    cases t with
+    | none =>
+      simp only [IdxBase] at ha
+      have hh : operandTok d (nameTok c) = true := by
+        have := ha; simp only [colOK, elemTok, Bool.and_eq_true] at this; exact this.1.1.1.1
+      obtain ⟨n1, n2, _⟩ := name_facts c
+      exact RT4.mk2 [nameTok c, arr (W4 d ch i 8)] (by simp only [toksE4, W4, List.cons_append, List.nil_append])
+        ((Tower2.of2 (full2_idx_col c i ha hi) (headOK_tok _ _ hh)).relevel _ (by simp [PR.lvl])) (head_tok _ _ n1 hh)
+        (NoComma.cons n2 (nc_single ac)) (by simp [tl4])
+    | some t =>
+      simp only [IdxBase] at ha
+      have hq := ha
+      simp only [qcolOK, nm2OK, Bool.and_eq_true, Bool.not_eq_true'] at hq
+      obtain ⟨_, ho, hd1, _, _, _, _, _, _, c1, _⟩ := nmOK_parts hq.1
+      exact RT4.mk2 [nameTok t, dotTok, nameTok c, arr (W4 d ch i 8)] (by simp only [toksE4, W4, List.cons_append, List.nil_append])
+        ((Tower2.of2 (full2_idx_qcol t c i ha hi) (headOK_tok _ _ ho)).relevel _ (by simp [PR.lvl])) (head_tok _ _ hd1 ho)
+        (NoComma.cons c1 (NoComma.cons k.2.2.2.2.2.2.2.2.2.2.2.2.2.2.2.1 (NoComma.cons hq.2.2 (nc_single ac)))) (by simp [tl4])
+  | func s n ps =>
+    cases s with
+    | some s => exact absurd ha (by simp [IdxBase])
+    | none =>
+      simp only [IdxBase] at ha
+      have hq := ha.1
+      simp only [fnOK, Bool.and_eq_true] at hq
+      obtain ⟨_, ho, hd1, _, _, _, _, _, _, c1, _⟩ := nmOK_parts hq.2.1
+      exact RT4.mk2 [qTok n, grp (toksArgs4 d ch 14 ps), arr (W4 d ch i 8)] (by simp only [toksE4, W4, List.cons_append, List.nil_append])
+        ((Tower2.of2 (full2_idx_func n ps i ha.1 ha.2 hi) (headOK_tok _ _ ho)).relevel _ (by simp [PR.lvl])) (head_tok _ _ hd1 ho)
+        (NoComma.cons c1 (NoComma.cons rfl (nc_single ac))) (by simp [tl4])
+  | _ => exact absurd ha (by simp [IdxBase])
+
 end TQ2
